@@ -550,6 +550,13 @@ pub const MALFORMED: &[(&str, u16, bool)] = &[
 	("\"\\u{12\"", 162, false),
 	("\"\\u12\"", 162, false),
 	("\"\\u{12g}\"", 162, false),
+	// two faults in one literal: the first one is reported
+	("\"a\tb \\q\"", 110, false),
+	("\"\\q a\tb\"", 162, false),
+	("\"\\u{110000} and \\q\"", 162, false),
+	("\"\\x4g and \\q\"", 162, false),
+	("\"\\q and \\u{D800}\"", 162, false),
+	("\"a\0b \\q\"", 110, false),
 	("'\\q'", 162, false),
 	("'\\x4'", 162, false),
 	("'\\u{41}'", 162, false),
